@@ -69,6 +69,20 @@ def cases():
         add("two_inputs_" + f, "{B}/ws", ["{B}/in/sub", "{B}/other"], force)
         add("nomock_" + f, "{B}/ws", ["{B}/in"], force, flags=["--nomock"])
         add("ws_is_parent_of_input_" + f, "{B}", ["{B}/in"], force)
+        # paths through symlinked parents, inputs climbing with "..", trailing slashes, "." as input
+        proj = [("d", "real"), ("d", "real/proj"), ("f", "real/proj/p.py", "p = 1\n"), ("d", "real/proj/pkg"),
+                ("f", "real/proj/pkg/q.py", "q = 2\n"), ("l", "link", "real")]
+        add("ws_inside_input_symlinked_parent_" + f, "{B}/link/proj/out", ["{B}/link/proj"], force, setup=proj)
+        add("ws_symlinked_parent_" + f, "{B}/link/wsdir", ["{B}/in"], force, setup=proj)
+        add("input_symlinked_parent_" + f, "{B}/ws", ["{B}/link/proj"], force, setup=proj)
+        add("dotdot_input_" + f, "{B}/out/ws", ["../../../in"], force, setup=[("d", "run/x/y"), ("d", "out")], cwd="run/x/y")
+        add("dotdot_input_one_" + f, "{B}/out/ws", ["../in"], force, setup=[("d", "run"), ("d", "out")], cwd="run")
+        add("dotdot_workspace_" + f, "../../outrel/ws", ["{B}/in"], force, setup=[("d", "run/x"), ("d", "outrel")], cwd="run/x")
+        add("trailing_slash_" + f, "{B}/ws/", ["{B}/in/"], force)
+        add("dot_input_" + f, "{B}/ws", ["."], force, cwd="in")
+        add("dot_input_ws_inside_" + f, "wsdir", ["."], force, cwd="in")
+        add("nested_dirs_" + f, "{B}/ws", ["{B}/deep"], force,
+            setup=[("d", "deep/a/b/c"), ("f", "deep/a/b/c/d.py", "d = 4\n"), ("f", "deep/a/top.py", "t = 1\n"), ("d", "deep/empty")])
     return out
 
 
